@@ -60,7 +60,7 @@ func nonNilError(v ssa.Value, at *ssa.BasicBlock, depth int, seen map[ssa.Value]
 		if f := StaticCallee(x.Common()); f != nil && len(f.Blocks) > 0 && f.Signature.Results().Len() == 1 {
 			all, n := true, 0
 			for _, b := range f.Blocks {
-				if ret, ok := b.Instrs[len(b.Instrs)-1].(*ssa.Return); ok && len(ret.Results) == 1 {
+				if ret, ok := AsReturn(b.Instrs[len(b.Instrs)-1]); ok && len(ret.Results) == 1 {
 					n++
 					if !nonNilError(RetVal(ret, 0), b, depth+1, seen) {
 						all = false
